@@ -51,3 +51,13 @@ package commonspace
 //@ package github.com/anyproto/any-sync/net/rpc/rpcerr
 //@ func *
 //@   modifies nothing
+
+// ---------------------------------------------------------------------------------------------
+// C20: a space starts its component container once and, when the start fails, reports the error and
+// leaves the container alone: Start has already closed exactly the started prefix in reverse order, a
+// further Close would close components that never ran and close the prefix twice.
+//@ package github.com/anyproto/any-sync/commonspace
+//@ func (*space).Init
+//@   requires s != nil && s.app != nil
+//@   ensures [failed_start_is_reported]       appStartFailed ==> err != nil
+//@   ensures [failed_start_not_closed_again]  appStartFailed ==> appCloseCalls == old(appCloseCalls)
